@@ -869,10 +869,25 @@ fn largem(a: &Args) {
                     used += 1;
                 }
             }
-            (low, high, used, oob, draws)
+            // the first draw after a reset, many times (a reset costs O(m), so fewer trials at the largest size)
+            let trials = if m > (1 << 22) { a.usize_or("first_trials", 400) } else { 4000 };
+            let mut flow = vec![0u64; 16];
+            let mut fhigh = vec![0u64; 16];
+            for _ in 0..trials {
+                fy.reset();
+                let v = fy.next(&mut rng);
+                if v >= m {
+                    oob += 1;
+                    continue;
+                }
+                flow[v % 16] += 1;
+                fhigh[(v as u128 * 16 / m as u128) as usize] += 1;
+            }
+            (low, high, used, oob, draws, flow, fhigh, trials)
         });
         match r {
-            Ok((low, high, used, oob, draws)) => cases.push(json!({"m": m, "low": low, "high": high, "used": used, "out_of_bounds": oob, "draws": draws})),
+            Ok((low, high, used, oob, draws, flow, fhigh, trials)) => cases.push(json!({"m": m, "low": low, "high": high, "used": used, "out_of_bounds": oob, "draws": draws,
+                "first_low": flow, "first_high": fhigh, "first_trials": trials})),
             Err(msg) => cases.push(json!({"m": m, "panic": msg})),
         }
     }
